@@ -143,7 +143,10 @@ pub fn guarded<T>(f: impl FnOnce() -> T) -> Result<T, ()> {
 
 /// Silence the default panic hook (panics are an observable outcome here, not noise).
 pub fn quiet_panics() {
-    std::panic::set_hook(Box::new(|_| {}));
+    // VERIF_LOUD_PANICS=1 keeps the default hook (development aid: find a panic of the harness itself)
+    if std::env::var_os("VERIF_LOUD_PANICS").is_none() {
+        std::panic::set_hook(Box::new(|_| {}));
+    }
 }
 
 /// Common CLI: `<bin> <prop> <mode> [--seed S] [--n N] [--out PATH] [--tier quick|thorough] [--replay REQ]`.
